@@ -12,4 +12,4 @@ Extraction "model.ml"
   DomainGen.init DomainGen.project DomainGen.marginalize DomainGen.axes DomainGen.transpose DomainGen.invert DomainGen.merge
   DomainGen.contains DomainGen.size DomainGen.sort DomainGen.canonical DomainGen.dunder_contains DomainGen.dunder_getitem
   DomainGen.dunder_len DomainGen.dunder_eq
-  BP_gen.belief_propagation.
+  BP_gen.belief_propagation BP_gen.mle.
